@@ -510,9 +510,9 @@ _TRANSLATOR = (
     "str_consts (a string constant = the list of its code points), eqb_membership (`x in [..]` by a declared equality test), "
     "`kdict K V` dicts with typed keys (literal through dict_literal_type, checked read with key_error, store, d.get(k, default), "
     "comprehension and for loop over d.items(), truthiness of a dict / Optional dict, `x or {}`), unpack_error (unpacking a list into "
-    "names: ValueError unless the lengths agree), except_tags (try / except over an exception class given as a set of error tags, "
-    "PyRt.res_catch; the handler must end in a raise), if_expr (conditional expression whose branches cannot raise), truthy (declared "
-    "truth value of an Optional object), loop_return (`return` inside a top-level for loop rewritten into a flag variable and break)")
+    "names: ValueError unless the lengths agree), except_tag_lists (try / except over an exception class given as a set of error tags, "
+    "PyRt.res_catch_tags; the handler must end in a raise), if_expr (conditional expression whose branches cannot raise), truthy (declared "
+    "truth value of an Optional object), loop_return_rewrite (`return` inside a top-level for loop rewritten into a flag variable and break)")
 _REPRESENTATION = (
     "the representation at the end of Model/Cli.v: a str = the list of its code points; dicts = insertion-ordered association lists; "
     "a namespace = a record (the plain argparse results main() reads, the class-valued options' names and KEY=VALUE dicts as "
